@@ -40,7 +40,7 @@ for d in sorted(glob.glob(ROOT + "/C*/")):
             break
     why = re.sub(r"\|", "/", why)[:150]
     out.append("| %s | %s | %s | %s | %s |" % (name, needs.replace("|", "/"), r["first"], now[1], why))
-    if not now[1].startswith("DETECTED"):
+    if not (now[1].startswith("DETECTED") or now[1].startswith("DIVERGENCE")):
         miss.append(name)
 open(ROOT + "/MATRIX.md", "w").write("\n".join(out) + "\n")
 # compact form for DESIGN.md: change | first | now | clause
